@@ -1664,6 +1664,27 @@ func configFields(p *core.Program) map[string]bool {
 							walk(bo, 0)
 						}
 					}
+					// a helper of package proto that sizes a buffer from one of its parameters (readFixedData(r, &buf, n))
+					if g := core.StaticFn(x); g != nil && g.Blocks != nil && pkgOf(g) != nil && pkgOf(g).Path() == core.PkgProto {
+						for pi, gp := range g.Params {
+							if pi >= len(x.Call.Args) {
+								break
+							}
+							sizes := false
+							for _, gb := range g.Blocks {
+								for _, gi := range gb.Instrs {
+									if mk, ok := gi.(*ssa.MakeSlice); ok && stripConv(mk.Len) == ssa.Value(gp) {
+										sizes = true
+									}
+								}
+							}
+							if sizes {
+								if bo, ok := stripConv(x.Call.Args[pi]).(*ssa.BinOp); ok && bo.Op == token.MUL {
+									walk(bo, 0)
+								}
+							}
+						}
+					}
 				}
 			}
 		}
